@@ -70,5 +70,9 @@ Walk(it, pt, vals, d, i, j, k) ==
 
 ParamFault(it, pt, vals, d) == Walk(it, pt, vals, d, 1, 1, 1)
 \* no parameterised value's text remains in the parameterised SQL
+\* constants exempt from parameterisation by contract (allow_parametrize=False) are literals in BOTH renderings: each exempt payload that
+\* the inline stream shows as a literal is a literal of the parameterised stream too
+ExemptLost(it, pt, exempt) == {x \in exempt : (\E j \in DOMAIN it : it[j].t \in {"str", "num"} /\ it[j].v = x)
+                                             /\ ~(\E j \in DOMAIN pt : pt[j].t \in {"str", "num"} /\ pt[j].v = x)}
 Residue(pt, marked) == {m \in marked : \E j \in DOMAIN pt : pt[j].t \in {"str", "num"} /\ pt[j].v = m}
 =============================================================================
